@@ -5,6 +5,7 @@ package c02
 import (
 	"fmt"
 	"math/rand"
+	"os"
 	"sort"
 	"strings"
 	"sync"
@@ -33,6 +34,14 @@ func run(c *vk.Ctx) {
 	c.Assume("reference semantics harness/ref arbitrates which side of a difference is wrong")
 	c.RaceAnchors = []string{"/internal/graph/", "/internal/check/", "/internal/planner/", "/pkg/server/commands/", "/internal/listobjects/", "/pkg/storage/storagewrappers/", "/internal/throttler/"}
 	if !sem.Calibrate(c) {
+		return
+	}
+	if c.Replay != "" {
+		if strings.Contains(c.Replay, "-lo-") || os.Getenv("VERIF_REPLAY_LIST") != "" {
+			sem.ReplayList(c, c.Replay)
+		} else {
+			sem.ReplayCheck(c, c.Replay)
+		}
 		return
 	}
 	base, err := drive.New(drive.Cfg{})
@@ -288,7 +297,7 @@ func listObjects(c *vk.Ctx, r *rand.Rand, p *sem.Prepared, rc *ref.Case, context
 				}
 				sort.Strings(variants)
 				what := fmt.Sprintf("ListObjects(%s, %s, %s, ctx=%s) returns different sets depending on engine/tuning/strategy: %s; reference: %v", x.t, x.rel, subj, gen.CtxString(rc.Context), strings.Join(variants, " vs "), want)
-				w := map[string]any{"model_dsl": p.Ref.DSL(), "stored_tuples": gen.TupleStrings(p.Stored), "contextual_tuples": gen.TupleStrings(contextual), "variants": variants, "reference": want}
+				w := witness(p, "all-engines", "", sem.Request{Object: x.t, Relation: x.rel, User: subj, Ctx: rc.Context}, contextual, ref.T, strings.Join(variants, " vs "), map[string]any{"variants": variants, "reference_set": want, "kind": "listobjects"})
 				c.Violation(finding, "lo-diff|"+ref.Shape(p.Ref.Rewrite(x.t, x.rel))+"|"+ref.UserKind(subj), what, w)
 			}
 		}
